@@ -799,7 +799,14 @@ class FldExporter(Exporter):
         if self.input_values:
             values.append(engine.input_values)
         if self.output_values:
-            values.append(engine.output_values)
+            # one row of outputs per row of inputs, also when every output variable holds a single value
+            # (eg, they are disabled or no rule was activated for the whole batch)
+            output_values = engine.output_values
+            if output_values.ndim == 2 and len(output_values) != len(input_values):
+                output_values = np.broadcast_to(
+                    output_values, (len(input_values), output_values.shape[1])
+                )
+            values.append(output_values)
         if not values:
             values.append([])
 
